@@ -1,0 +1,24 @@
+//go:build verif
+// +build verif
+
+package bfe_server
+
+// Hook for the verification harness of property C44 (build tag verif, add-only): a production ServerSessionCache
+// (the redis-backed bfe_tls.ServerSessionCache) whose connection pool dials the harness's in-memory store instead
+// of a redis server.  Get/Put are the unmodified production methods.
+
+import (
+	"github.com/gomodule/redigo/redis"
+)
+
+// VerifC44NewSessionCache builds a ServerSessionCache with the given key prefix and expiry (seconds) whose pool
+// obtains connections from dial.
+func VerifC44NewSessionCache(dial func() (redis.Conn, error), keyPrefix string, sessionExpire int) *ServerSessionCache {
+	c := new(ServerSessionCache)
+	c.KeyPrefix = keyPrefix
+	c.SessionExpire = sessionExpire
+	c.MaxIdle = 2
+	c.pool = &redis.Pool{MaxIdle: c.MaxIdle, Dial: dial}
+	c.state = new(ProxyState)
+	return c
+}
